@@ -53,7 +53,7 @@ func (g *pfGen) width(rendLen int) string {
 		return []string{"4096", "-4096", "65536", "-65536"}[g.rng.IntN(4)]
 	case 13:
 		g.stats["width-beyond-limit"]++
-		return []string{"65537", "-65537", "1000000000000", "99999999999999999999999999", "-70000"}[g.rng.IntN(5)]
+		return []string{"65537", "-65537", "1000000000000", "99999999999999999999999999", "-70000", "9999999999999999999", "18446744073709551621", "-9223372036854775809", "4294967301", "18446744073709617152"}[g.rng.IntN(10)]
 	case 14:
 		return "0"
 	}
@@ -196,7 +196,7 @@ func c18Matrix(c *Case) {
 		}
 	}
 	// error forms: nothing of the printf is written, earlier output is kept
-	for _, f := range []string{"abc %", "abc %5", "x%-", "%s %d", "%q", "%65537s", "%-65537s", "%99999999999999999999s", "%s %s", "lit %f", "%5"} {
+	for _, f := range []string{"abc %", "abc %5", "x%-", "%s %d", "%q", "%65537s", "%-65537s", "%99999999999999999999s", "%18446744073709551621s", "%9999999999999999999s", "%4294967301s", "%s %s", "lit %f", "%5"} {
 		prog := fmt.Sprintf("BEGIN { printf('before|'); printf('%s', 'a'); print 'unreachable' }", f)
 		lib := RunLib(prog, nil, nil, RunOpts{})
 		c.NonTrivial("err:" + f)
